@@ -156,27 +156,11 @@ theorem count_loop (T : ℕ) (c : K) (k : ℕ) :
     originLoop T (fun _ _ => c) (fun _ => (0 : K)) k = ((T - k : ℕ) : K) * c := by
   rw [originLoop_eq, Finset.sum_const, origin_count, nsmul_eq_mul]
 
-/-- `results` and `counts` after the loop nest of an origin-averaging branch -/
-theorem raw_lin (b : Branch) (h : b.OkLin) (T N d1 d2 : ℕ) (A : Series K) (k : ℕ) :
-    b.raw T N d1 d2 A k =
-      (∑ t ∈ range (T - k), pair b.shapeLen N d1 d2 A (t + k) t)
-        / (((T - k : ℕ) : K) * (if b.countPerParticle then (N : K) else 1)) := by
-  obtain ⟨hd, hx, hp, hs, ha, hc, hcs, hdc⟩ := h
-  unfold Branch.raw
-  simp only [hdc, if_true]
-  -- results
-  have hstep : (fun n nn acc => b.step N d1 d2 A n nn acc)
-      = fun n nn (acc : ℕ → K) => upd acc nn (pair b.shapeLen N d1 d2 A n (n - nn)) := by
-    funext n nn acc
-    rw [step_ok b .nMinusNn hp (Or.inr ha), hs, ha]
-    rfl
-  have hres : b.loops T (b.step N d1 d2 A)
-      = originLoop T (fun n nn => pair b.shapeLen N d1 d2 A n (n - nn)) (fun _ => (0 : K)) := by
-    unfold Branch.loops
-    simp only [hd, hx, if_true]
-    show foldRange T (fun acc n => foldRange (n + 1) (fun acc nn => (fun n nn acc => b.step N d1 d2 A n nn acc) n nn acc) acc) _ = _
-    rw [hstep]; rfl
-  -- counts
+/-- `counts` after the loop nest of an origin-averaging branch: the number of origins, times N when incremented per particle -/
+theorem counts_lin (b : Branch) (h : b.OkLin) (T N : ℕ) (k : ℕ) :
+    b.loops (α := K) T (b.countStep N) k
+      = ((T - k : ℕ) : K) * (if b.countPerParticle then (N : K) else 1) := by
+  obtain ⟨hd, hx, _, _, _, hc, hcs, _⟩ := h
   have hcstep : (fun n nn cnt => b.countStep (α := K) N n nn cnt)
       = fun n nn (cnt : ℕ → K) => upd cnt nn (if b.countPerParticle then (N : K) else 1) := by
     funext n nn cnt
@@ -192,7 +176,29 @@ theorem raw_lin (b : Branch) (h : b.OkLin) (T N d1 d2 : ℕ) (A : Series K) (k :
     simp only [hd, hx, if_true]
     show foldRange T (fun acc n => foldRange (n + 1) (fun acc nn => (fun n nn cnt => b.countStep (α := K) N n nn cnt) n nn acc) acc) _ = _
     rw [hcstep]; rfl
-  rw [hres, hcnt, count_loop, originLoop_eq, sum_origins]
+  rw [hcnt, count_loop]
+
+/-- `results / counts` after the loop nest of an origin-averaging branch -/
+theorem raw_lin (b : Branch) (h : b.OkLin) (T N d1 d2 : ℕ) (A : Series K) (k : ℕ) :
+    b.raw T N d1 d2 A k =
+      (∑ t ∈ range (T - k), pair b.shapeLen N d1 d2 A (t + k) t)
+        / (((T - k : ℕ) : K) * (if b.countPerParticle then (N : K) else 1)) := by
+  have hcnt := counts_lin (K := K) b h T N
+  obtain ⟨hd, hx, hp, hs, ha, hc, hcs, hdc⟩ := h
+  unfold Branch.raw
+  simp only [hdc, if_true]
+  have hstep : (fun n nn acc => b.step N d1 d2 A n nn acc)
+      = fun n nn (acc : ℕ → K) => upd acc nn (pair b.shapeLen N d1 d2 A n (n - nn)) := by
+    funext n nn acc
+    rw [step_ok b .nMinusNn hp (Or.inr ha), hs, ha]
+    rfl
+  have hres : b.loops T (b.step N d1 d2 A)
+      = originLoop T (fun n nn => pair b.shapeLen N d1 d2 A n (n - nn)) (fun _ => (0 : K)) := by
+    unfold Branch.loops
+    simp only [hd, hx, if_true]
+    show foldRange T (fun acc n => foldRange (n + 1) (fun acc nn => (fun n nn acc => b.step N d1 d2 A n nn acc) n nn acc) acc) _ = _
+    rw [hstep]; rfl
+  rw [hres, hcnt, originLoop_eq, sum_origins]
   congr 1
   exact Finset.sum_congr rfl fun t _ => by rw [Nat.add_sub_cancel]
 
